@@ -109,4 +109,7 @@ SHIMS = {
     'bool-to-string': dict(pattern=r'\bself\.(bold|italics|underscore|strikethrough|reverse|blink)\.to_string\(\)', replace=r'bool_to_string(self.\1)', spec='r@ == "true" / "false"'),
     'rgb-vec-to-hex': dict(pattern=r'\bfg_bg_256\.iter\(\)\s*\.map\(\|&\(r, g, b\)\| format!\(("[^"]*"), r, g, b\)\)\s*\.collect\(\)', replace=r'rgb_vec_to_hex(\1, &fg_bg_256)', spec='elementwise format!("{:02x}{:02x}{:02x}") of the (r,g,b) triples: hex6 for components in 0..=255'),
     'charset-const': dict(pattern=r'\b(LAT1_MAP|VT100_MAP|IBMPC_MAP|VAX42_MAP)\b', replace=r'const_\1()', spec='the constant table as an abstract value (contents: Kani harness charset_tables_match_reference)'),
+    # CharOpts::update_from_map
+    'hm-into-pairs': dict(pattern=r'(?<=for \(key, value\) in )map(?= \{)', replace=r'pairs__it: hm_into_pairs(map)', spec='HashMap::into_iter by value yields every entry exactly once (some order)'),
+    'parse-bool': dict(pattern=r'\bvalue\.parse\(\)\.unwrap_or\(false\)', replace=r'parse_bool_or_false(&value)', spec='str::parse::<bool>: exactly "true" gives true, anything else false'),
 }
